@@ -198,7 +198,7 @@ impl Lowerer<'_, '_> {
                         .iter()
                         .zip(&mir_signature.parameter_types)
                         .filter_map(|(def, ty)| {
-                            let ty = lowerer.lower_type(*ty)?;
+                            let ty = lowerer.param_type(*ty)?;
                             let mir::VarKind::Explicit(x) = def.kind else {
                                 ice!()
                             };
@@ -387,17 +387,19 @@ impl Lowerer<'_, '_> {
             kind: VarKind::Context,
         };
 
-        // Filter out any zero-sized arguments
-        let args: Vec<_> = args
-            .into_iter()
-            .zip(mir_signature.parameter_types)
-            .filter_map(|(v, t)| {
-                self.layout_of(t).filter(|l| !l.is_zero_sized()).map(|_| v)
-            })
-            .collect();
-
-        // Transform all the arguments to LIR.
-        let args = args.into_iter().map(|v| self.var(v).into()).collect();
+        // Filter out any zero-sized arguments, except those of a registered
+        // type: they keep a (dummy) pointer parameter, see `param_type`.
+        let mut lir_args: Vec<Operand> = Vec::new();
+        for (v, t) in args.into_iter().zip(mir_signature.parameter_types) {
+            if self.is_zero_sized_runtime_type(t) {
+                let slot = self.new_stack_slot(Layout::new(0, 1));
+                lir_args.push(slot.into());
+            } else if self.layout_of(t).is_some_and(|l| !l.is_zero_sized()) {
+                // Transform the argument to LIR.
+                lir_args.push(self.var(v).into());
+            }
+        }
+        let args = lir_args;
 
         let func = self.ctx.type_info.full_name(&func);
 
@@ -536,6 +538,14 @@ impl Lowerer<'_, '_> {
             // but if it is a DynVal, we have to ensure that the value is stored on a
             // stack slot and that we pass a pointer to it to the function.
             if !dyn_vals[i] {
+                // The trampoline takes a `Val<T>` as `*mut T`, also when `T`
+                // is zero-sized, so we must pass some pointer.
+                if self.is_zero_sized_runtime_type(ty) {
+                    let slot = self.new_stack_slot(Layout::new(0, 1));
+                    args.push(slot.into());
+                    parameters.push((i.to_string().into(), IrType::Pointer));
+                    continue;
+                }
                 let Some(ty) = self.lower_type(ty) else {
                     continue;
                 };
@@ -1118,6 +1128,26 @@ impl Lowerer<'_, '_> {
             label,
             instructions: Vec::new(),
         })
+    }
+
+    /// Whether this is a registered (runtime) type of size 0
+    fn is_zero_sized_runtime_type(&self, ty: TyRef) -> bool {
+        matches!(self.ctx.type_info.ty_pool.get(ty), Ty::Runtime(_))
+            && self.layout_of(ty).is_some_and(|l| l.is_zero_sized())
+    }
+
+    /// The IR type of a function parameter of the given type
+    ///
+    /// Zero-sized parameters are dropped from the signature, with one
+    /// exception: Rust passes a registered type `Val<T>` as `*mut T` whatever
+    /// the size of `T` (see `Value::AsParam`), so a parameter of a zero-sized
+    /// registered type still occupies a pointer parameter. Dropping it would
+    /// shift every argument that follows.
+    fn param_type(&mut self, ty: TyRef) -> Option<IrType> {
+        if self.is_zero_sized_runtime_type(ty) {
+            return Some(IrType::Pointer);
+        }
+        self.lower_type(ty)
     }
 
     fn lower_type(&mut self, ty: TyRef) -> Option<IrType> {
